@@ -6,10 +6,10 @@ use serde_json::Value as J;
 // ---------------------------------------------------------------------------------------------
 // routes: which entry-point groups an input is fed to (bit mask)
 // ---------------------------------------------------------------------------------------------
-pub const R_POLICY: u64 = 1 << 0; // Cedar policy text parsers, formatter, FFI text wrappers
+pub const R_POLICY: u64 = 1 << 0; // Cedar policy text: PolicySet::from_str (+ formatter when it parses), Policy::parse, Template::parse
 pub const R_EXPR: u64 = 1 << 1; // Expression / RestrictedExpression text
 pub const R_NAME: u64 = 1 << 2; // EntityUid / type name / namespace / extension constructor strings
-pub const R_CSCHEMA: u64 = 1 << 3; // Cedar schema text
+pub const R_CSCHEMA: u64 = 1 << 3; // Cedar schema text: Schema / SchemaFragment ::from_cedarschema_str, schema_str_to_json_with_resolved_types
 pub const R_J_POLICY: u64 = 1 << 4; // JSON (EST) policy / template
 pub const R_J_PSET: u64 = 1 << 5; // JSON policy set (API format and FFI format)
 pub const R_J_SCHEMA: u64 = 1 << 6; // JSON schema
@@ -23,7 +23,9 @@ pub const R_J_FORMAT: u64 = 1 << 13;
 pub const R_J_CHECK: u64 = 1 << 14; // FFI check_parse_{entities,context,scope_variables}
 pub const R_PROTO: u64 = 1 << 15; // protobuf decode of all 9 Protobuf types
 pub const R_FILE: u64 = 1 << 16; // reader-based (`*_file`) entry points: take raw bytes
-pub const R_TEXT: u64 = R_POLICY | R_EXPR | R_NAME | R_CSCHEMA;
+pub const R_POLICY_FFI: u64 = 1 << 17; // the remaining policy-text entry points (FromStr variants, unconditional formatter, FFI wrappers)
+pub const R_CSCHEMA_FFI: u64 = 1 << 18; // the remaining Cedar-schema-text entry points (FromStr variants, FFI wrappers)
+pub const R_TEXT: u64 = R_POLICY | R_POLICY_FFI | R_EXPR | R_NAME | R_CSCHEMA | R_CSCHEMA_FFI;
 pub const R_JSON: u64 = R_J_POLICY | R_J_PSET | R_J_SCHEMA | R_J_ENTITIES | R_J_ENTITY | R_J_CONTEXT | R_J_EUID | R_J_AUTH | R_J_VALIDATE | R_J_FORMAT | R_J_CHECK;
 pub const R_ALL: u64 = R_TEXT | R_JSON | R_PROTO | R_FILE;
 
@@ -98,9 +100,9 @@ impl Family for SeqFam {
     }
 }
 
-/// 27 Cedar policy tokens (the narrow alphabet, swept to length 3 | 4)
+/// 24 Cedar policy tokens (the narrow alphabet, swept to length 3 | 4)
 pub const POLICY_TOKENS: &[&str] = &[
-    "principal", "a", "\"s\"", "1", "9223372036854775808", "(", ")", "[", "]", "{", "}", ",", ":", "::", ".", "-", "!", "==", "&&", "in", "is", "has", "like", "if", "?principal", ";", "// c\n",
+    "principal", "a", "\"s\"", "1", "9223372036854775808", "(", ")", "[", "]", "{", "}", ",", "::", ".", "-", "!", "==", "&&", "in", "is", "has", "if", "?principal", "// c\n",
 ];
 
 /// every Cedar policy token / keyword (the wide alphabet, swept to length 2 | 3)
@@ -109,9 +111,9 @@ pub const POLICY_TOKENS_WIDE: &[&str] = &[
 ];
 pub const POLICY_TOKENS_WIDE_EXTRA: &[&str] = &["?principal", "?resource", "?other", "|", "&", "// c\n"];
 
-/// 26 Cedar schema tokens
+/// 24 Cedar schema tokens
 pub const SCHEMA_TOKENS: &[&str] = &[
-    "entity", "action", "type", "namespace", "A", "\"a\"", "in", "appliesTo", "principal", "context", "{", "}", "[", "]", ",", ";", ":", "::", "?", "=", "<", ">", "Set", "tags", "enum", "@",
+    "entity", "action", "type", "namespace", "A", "\"a\"", "in", "appliesTo", "principal", "{", "}", "[", "]", ",", ";", ":", "::", "?", "=", "<", ">", "Set", "tags", "enum",
 ];
 pub const SCHEMA_TOKENS_WIDE: &[&str] = &[
     "entity", "action", "type", "namespace", "A", "B", "N", "\"a\"", "\"\"", "in", "appliesTo", "principal", "resource", "context", "{", "}", "[", "]", "(", ")", ",", ";", ":", "::", "?", "=", "<", ">", "Set", "Long", "String", "Bool", "Record", "Entity", "Extension", "ipaddr", "__cedar", "tags", "enum", "@", "attributes", "1", ".", "// c\n",
@@ -122,13 +124,22 @@ pub const ESCAPE_CHARS: &[&str] = &["\\", "*", "u", "{", "}", "0", "x", "n", "\"
 
 pub const POLICY_HEAD: &str = "permit(principal, action, resource)";
 
+/// splice positions of the narrow policy alphabet: when-body, scope, annotation, top level
 pub fn policy_positions() -> Vec<(&'static str, &'static str, &'static str, u64)> {
     vec![
         ("when", "permit(principal, action, resource) when { ", " };", R_POLICY),
         ("scope-principal", "permit(principal ", ", action, resource);", R_POLICY),
-        ("scope-action", "permit(principal, action ", ", resource);", R_POLICY),
-        ("scope-all", "permit(", ");", R_POLICY),
         ("annotation-value", "@a(", ") permit(principal, action, resource);", R_POLICY),
+        ("top", "", "", R_POLICY | R_EXPR | R_NAME),
+    ]
+}
+
+/// splice positions of the wide policy alphabet
+pub fn policy_positions_wide() -> Vec<(&'static str, &'static str, &'static str, u64)> {
+    vec![
+        ("when", "permit(principal, action, resource) when { ", " };", R_POLICY),
+        ("scope-all", "permit(", ");", R_POLICY),
+        ("scope-action", "permit(principal, action ", ", resource);", R_POLICY),
         ("annotation-key", "@", " permit(principal, action, resource);", R_POLICY),
         ("top", "", "", R_POLICY | R_EXPR | R_NAME),
     ]
@@ -138,9 +149,15 @@ pub fn schema_positions() -> Vec<(&'static str, &'static str, &'static str, u64)
     vec![
         ("top", "", "", R_CSCHEMA),
         ("namespace-body", "namespace N { ", " }", R_CSCHEMA),
-        ("entity-after-name", "entity A ", ";", R_CSCHEMA),
         ("entity-body", "entity A { ", " };", R_CSCHEMA),
         ("attr-type", "entity A { x: ", " };", R_CSCHEMA),
+    ]
+}
+
+pub fn schema_positions_wide() -> Vec<(&'static str, &'static str, &'static str, u64)> {
+    vec![
+        ("top", "", "", R_CSCHEMA),
+        ("entity-after-name", "entity A ", ";", R_CSCHEMA),
         ("type-body", "type T = ", "; entity A;", R_CSCHEMA),
         ("applies-to", "entity A; action \"a\" appliesTo { ", " };", R_CSCHEMA),
         ("action-after-name", "entity A; action a ", ";", R_CSCHEMA),
@@ -186,6 +203,18 @@ impl Family for ListFam {
 pub const BYTE_ALPHABET_40: &[u8] = &[
     0x00, 0x01, 0x08, 0x0a, 0x12, 0x1a, 0x7f, 0x80, 0xff, 0xc3, 0xa9, 0xef, b' ', b'"', b'\\', b'/', b'*', b'(', b')', b'[', b']', b'{', b'}', b',', b':', b';', b'.', b'-', b'!', b'=', b'<', b'&', b'|', b'@', b'?', b'0', b'9', b'a', b'e', b'_',
 ];
+
+/// quick-tier substitution alphabet for text seeds
+pub const BYTE_ALPHABET_TEXT_Q: &[u8] = &[0x00, 0xff, b'"', b'\\', b'(', b')', b'{', b'}', b',', b';', b'.', b':', b'-', b'!', b'*', b'@', b'?', b'a', b'0', b' '];
+/// substitution alphabet for large JSON seeds
+pub const BYTE_ALPHABET_JSON_S: &[u8] = &[0x00, 0xff, b'"', b'\\', b'{', b']', b',', b':', b'0', b'_'];
+/// quick-tier substitution alphabet for protobuf seeds: every tag byte of fields 0..7, small
+/// lengths / varints, and the varint continuation boundary
+pub fn byte_alphabet_proto_q() -> Vec<u8> {
+    let mut v: Vec<u8> = (0..=0x3f).collect();
+    v.extend_from_slice(&[0x7f, 0x80, 0x81, 0xc3, 0xfe, 0xff]);
+    v
+}
 
 pub fn short_bytes(full: bool) -> Vec<Vec<u8>> {
     let mut v: Vec<Vec<u8>> = vec![vec![]];
@@ -437,11 +466,14 @@ fn replacements_full() -> Vec<JV> {
 
 /// all single mutations of `doc`. `full` = the whole operator set; otherwise the reduced set
 /// used for pairs (delete, null, one retype, duplicate key).
-pub fn mutations(doc: &JV, full: bool, extra_keys: &[&str]) -> Vec<Mut> {
+pub fn mutations(doc: &JV, full: bool, extra_keys: &[&str], pool_cap: usize) -> Vec<Mut> {
     let mut out = vec![];
     let mut keys: Vec<String> = vec![];
     let mut strs: Vec<String> = vec![];
     doc.collect(&mut keys, &mut strs);
+    // `pool_cap` bounds how many of the document's own keys / strings are used as replacements
+    keys.truncate(pool_cap);
+    strs.truncate(pool_cap);
     for k in ESCAPE_KEYS.iter().chain(extra_keys.iter()) {
         if !keys.iter().any(|x| x == k) {
             keys.push(k.to_string());
@@ -549,12 +581,12 @@ pub struct JsonPairFam {
 impl JsonPairFam {
     pub fn new(name: &str, doc: &J, route: u64) -> JsonPairFam {
         let d = JV::from_serde(doc);
-        let firsts = mutations(&d, false, &[]);
+        let firsts = mutations(&d, false, &[], 0);
         let mut prefix = Vec::with_capacity(firsts.len());
         let mut total = 0u64;
         for m in &firsts {
             prefix.push(total);
-            total += mutations(&apply(&d, m), false, &[]).len() as u64;
+            total += mutations(&apply(&d, m), false, &[], 0).len() as u64;
         }
         JsonPairFam { name: format!("json-mut2:{name}"), doc: d, firsts, prefix, total, route }
     }
@@ -579,7 +611,7 @@ impl Family for JsonPairFam {
             Err(x) => x - 1,
         };
         let d1 = apply(&self.doc, &self.firsts[fi]);
-        let seconds = mutations(&d1, false, &[]);
+        let seconds = mutations(&d1, false, &[], 0);
         let j = (i - self.prefix[fi]) as usize;
         let d2 = apply(&d1, &seconds[j]);
         Input { bytes: d2.text().into_bytes(), route: self.route }
